@@ -189,6 +189,10 @@ def check_whenseq(rep, tier, strats, prop):
             if g.get("out") != p["expected"]:
                 bad.setdefault("output/whenseq/%s/%s/%s/n=%d" % (strat, form, kind, n), []).append(
                     (p, g, "output %s, expected %s" % (g.get("out"), p["expected"])))
+            if "subs" in p and g.get("subs") != str(p["subs"]):
+                bad.setdefault("subscribers/whenseq/%s/%s/%s/n=%d" % (strat, form, kind, n), []).append(
+                    (p, g, "the other subscribers of the shared inputs were called %s times, expected %s (each exactly once)" % (
+                        g.get("subs"), p["subs"])))
             if g.get("live") != "0" or g.get("leak") != "0":
                 bad.setdefault("released/whenseq/%s/%s/%s/n=%d" % (strat, form, kind, n), []).append(
                     (p, g, "%s payloads alive, allocation balance %s after everything was dropped" % (g.get("live"), g.get("leak"))))
